@@ -1493,12 +1493,16 @@ impl<'t, 'c> Gen<'t, 'c> {
         let handler_labels: Vec<String> = (0..nh).map(|k| format!("H{}", k + 1)).collect();
         let nr = self.t.choose(3);
         let routine_labels: Vec<String> = (0..nr).map(|k| format!("R{}", k + 1)).collect();
-        let mut resume_targets: Vec<String> = vec![];
+        let resume_targets: Vec<String> = (0..nh).map(|k| format!("LR{}", k + 1)).collect();
+        let mut target_placed: Vec<bool> = vec![false; nh];
         let mut handler_resume: Vec<usize> = vec![];
         for _ in 0..nh {
             // 0 = RESUME NEXT (simplest), 1 = RESUME, 2 = RESUME label
             handler_resume.push(self.t.choose(3));
         }
+        // a landing label of RESUME <label> sits in the main line or, now and then, inside a GOSUB routine (the RETURN
+        // that follows it needs the GOSUB that was pending when the error happened)
+        let target_in_routine: Vec<Option<usize>> = (0..nh).map(|_| if nr > 0 && self.t.chance(1, 3) { Some(self.t.choose(nr)) } else { None }).collect();
         let mut active: Option<usize> = None;
         let segs = 2 + self.t.choose(7);
         let mut has_data = false;
@@ -1620,18 +1624,20 @@ impl<'t, 'c> Gen<'t, 'c> {
                 }
             }
             // a landing label for RESUME <label> handlers, placed after some segment
-            if resume_targets.len() < nh && self.t.chance(1, 3) {
-                let l = format!("LR{}", resume_targets.len() + 1);
-                main.push(Stmt::Label(l.clone()));
-                main.push(self.tok_err("l"));
-                resume_targets.push(l);
+            if let Some(k) = (0..nh).find(|k| !target_placed[*k] && target_in_routine[*k].is_none()) {
+                if self.t.chance(1, 3) {
+                    main.push(Stmt::Label(resume_targets[k].clone()));
+                    main.push(self.tok_err("l"));
+                    target_placed[k] = true;
+                }
             }
         }
-        while resume_targets.len() < nh {
-            let l = format!("LR{}", resume_targets.len() + 1);
-            main.push(Stmt::Label(l.clone()));
-            main.push(self.tok_err("l"));
-            resume_targets.push(l);
+        for k in 0..nh {
+            if !target_placed[k] && target_in_routine[k].is_none() {
+                main.push(Stmt::Label(resume_targets[k].clone()));
+                main.push(self.tok_err("l"));
+                target_placed[k] = true;
+            }
         }
         main.push(pr(vec![s_lit("end"), Expr::BuiltIn { name: "ERR".into(), args: vec![], ty: Ty::Int }, ld(&sentinel), ld(&cv.z), ld(&cv.big), ld(&cv.idx), ld(&cv.n), ld(&cv.small), ld(&cv.sres), ld(&cv.tres)]));
         main.push(Stmt::End);
@@ -1648,6 +1654,14 @@ impl<'t, 'c> Gen<'t, 'c> {
                 let f = self.failing(&cv, kk);
                 main.extend(f);
                 main.push(self.tok("w"));
+            }
+            // a landing label for RESUME <label> inside the routine: the RETURN that follows needs the GOSUB that was
+            // pending when the error happened
+            for t in 0..nh {
+                if target_in_routine[t] == Some(k) {
+                    main.push(Stmt::Label(resume_targets[t].clone()));
+                    main.push(self.tok_err("l"));
+                }
             }
             main.push(Stmt::Return);
         }
